@@ -35,7 +35,8 @@ void diff_init()
     e.sqrt_dependent = n == "sqrt" || n == "hypot" || n == "asin" || n == "acos" || n == "sqrt_reassign";
     e.double_result = n.find("f64") != std::string::npos && (n.rfind("cast_", 0) == 0 || n.rfind("f2a_", 0) == 0 || n.rfind("f2fp_", 0) == 0 || n.rfind("add_", 0) == 0 || n.rfind("sub_", 0) == 0 || n.rfind("mul_", 0) == 0 || n.rfind("div_", 0) == 0);
     e.gnu_only = n.find("i128") != std::string::npos; // __int128 operands exist only in GNU-dialect configurations
-    e.constexpr_claimed = !rt_only.count(n) && n.find("_reassign") == std::string::npos && !e.gnu_only && n.rfind("sinit_", 0) != 0 && n.rfind("snow_", 0) != 0; // the stateful shapes use a volatile sink
+    bool typed_table_fn = n.rfind("sin_angle_aprox_", 0) == 0 || n.rfind("cos_angle_aprox_", 0) == 0 || n.rfind("sin_angle_tab_", 0) == 0 || n.rfind("cos_angle_tab_", 0) == 0;
+    e.constexpr_claimed = !rt_only.count(n) && !typed_table_fn && n.find("_reassign") == std::string::npos && !e.gnu_only && n.rfind("sinit_", 0) != 0 && n.rfind("snow_", 0) != 0; // the stateful shapes use a volatile sink
     ENTRIES.push_back(e);
     }
   SQ_AB = resolve("sqrt_abacus"); SQ_STD = resolve("sqrt_std_math"); I128_OK = resolve("i128_supported"); reassign_init();
